@@ -195,7 +195,7 @@ def skip_unit(ctx, src):
     for fn, spec in (('toupper', 'C8_UPPER'), ('tolower', 'C8_LOWER')):
         u.function(src, CC, r'string %s\(const string& s\)' % fn, new_header='void %s_str(vout* ret, const vstr* s)' % fn,
                    rules=[L('string ret;', ''), R(r'\bret\.reserve\(', 'c8_reserve(ret, '), SIZES[0], FOR,
-                          R(r'\bret\.push_back\(', 'c8_push_back(ret, '), R(r'(?<![\w:])::(toupper|tolower)\(', r'c8_\1('), L('return ret;', 'return;')],
+                          R(r'\bret\.push_back\(', 'c8_push_back(ret, '), R(r'(?<![\w:])::(toupper|tolower)\(', r'c8_\1(', None), L('return ret;', 'return;')],
                    nloops=1, loops={1: CASE_LOOP % spec})
     return u
 
